@@ -155,7 +155,6 @@ static void * racer(void * arg) {
         printf(" winners=%d nw=%d tasks=%d\n", winners, myth_get_num_workers(), count_tasks());
         fflush(stdout);
         myth_fini();
-        r_worker[me] = 0;
       }
     }
     barrier();
@@ -174,7 +173,7 @@ static int do_race(int k, int c) {
 }
 
 int main(int argc, char ** argv) {
-  alarm(argc > 4 ? atoi(argv[4]) : 30);
+  /* no alarm(): the library owns ITIMER_REAL; the caller enforces the time limit */
   if (argc >= 3 && strcmp(argv[1], "hist") == 0) return do_hist(argv[2]);
   if (argc >= 4 && strcmp(argv[1], "race") == 0) return do_race(atoi(argv[2]), atoi(argv[3]));
   fprintf(stderr, "usage\n");
